@@ -185,16 +185,16 @@ def _gallia():
     reqs = [
         dict(name="ReadDataByIdentifier", req=service.ReadDataByIdentifierRequest(0xF190), sid=0x22, pos=rdbi_pos,
              mismatch=["62f191aa", "7f1078", "7f1021", "5003001901f4", "7f3e78", "7e00", "7f2721"],
-             malformed=["62", "62f1", "7f22", "7f"]),
+             malformed=["62", "62f1", "7f22", "7f", "7f2200", "7f22ff", "7f221100", "7f2205"]),
         dict(name="RawRequest(unknown service)", req=service.RawRequest(bytes.fromhex("ba0102")), sid=0xBA, pos=raw_pos,
-             mismatch=["fb00", "7fbb78", "7f2221", "62f190aa"],
-             malformed=["7fba", "7f"]),
+             mismatch=["fb00", "7fbb78", "7f2221", "62f190aa", "7f22ff"],
+             malformed=["7fba", "7f", "7fba00", "7fbaff", "7fba3100"]),
         dict(name="DiagnosticSessionControl", req=service.DiagnosticSessionControlRequest(0x03), sid=0x10, pos=dsc_pos,
              mismatch=["7f2278", "7f2221", "62f190aa", "7e00"],
-             malformed=["50", "7f10", "7f"]),
+             malformed=["50", "7f10", "7f", "7f1023", "7f10ff", "7f101200"]),
         dict(name="RoutineControl", req=service.StartRoutineRequest(0x0203), sid=0x31, pos=rc_pos,
-             mismatch=["7f2278", "7f3e21", "5003001901f4", "6701aa"],
-             malformed=["71", "7f31", "7f"]),
+             mismatch=["7f2278", "7f3e21", "5003001901f4", "6701aa", "7f3e05"],
+             malformed=["71", "7f31", "7f", "7f3101", "7f313b", "7f31ff"]),
     ]
 
     class State:
